@@ -10,6 +10,8 @@ package nsqd
 //                   another one between two refreshes of its cached channel list.
 //   pausedrestart — C03 (seeded C03-m5): a topic persisted as paused stays paused across a restart
 //                   (LoadMetadata pauses it before Start()): nothing reaches its channels until unpause.
+//   ephtopic      — C01 (audit A5): an `#ephemeral` TOPIC drops on a full memory queue — and only then —,
+//                   answers the publisher OK and counts the message; a durable topic next to it keeps everything.
 
 import (
 	"bufio"
@@ -18,6 +20,7 @@ import (
 	"io"
 	"net"
 	"os"
+	"strings"
 	"sync/atomic"
 	"time"
 )
@@ -333,6 +336,18 @@ func (h *vfE2H) doBusyPause() {
 	}
 	for round := 0; round < 3 && !h.aborted; round++ {
 		base := atomic.LoadUint64(&ch.messageCount)
+		// audit A10: the round as a schedule of Nsq.Model.TopicPause (cached enable bit | flag store | hand-shake);
+		// one token per micro-step, the implementation's answer is + (happened) / - (refused) per token
+		tpOps, tpImpl := []string{"m1", "u", "s"}, []string{"+", "+", "+"}
+		tp1 := func(tok string, ok bool) {
+			tpOps = append(tpOps, tok)
+			if ok {
+				tpImpl = append(tpImpl, "+")
+			} else {
+				tpImpl = append(tpImpl, "-")
+			}
+		}
+		nextFan := 1
 		ch.exitMutex.Lock()
 		locked := true
 		unlock := func() {
@@ -351,6 +366,12 @@ func (h *vfE2H) doBusyPause() {
 			return
 		}
 		// the pump now sits inside ch.PutMessage with one message in its hands, 5 wait in the topic queue
+		for i := 1; i <= 6; i++ {
+			tp1(fmt.Sprintf("p%d", i), true)
+		}
+		tp1("f1", true)
+		nextFan = 2
+		tp1("S1", true)
 		ret := make(chan bool, 1)
 		go func() { tp.Pause(); ret <- true }()
 		early := false
@@ -379,10 +400,21 @@ func (h *vfE2H) doBusyPause() {
 		if !tp.IsPaused() {
 			h.fail("topic-pause", "busypause: Pause() returned but the topic is not paused")
 		}
+		// messages 2..(c0-base) were handed over between the flag store and the return of Pause()
+		for ; uint64(nextFan) <= c0-base && nextFan <= 6; nextFan++ {
+			tp1(fmt.Sprintf("f%d", nextFan), true)
+		}
+		tp1("A", true) // Pause() returned
 		pub(2) // a paused topic keeps accepting publishes
+		tp1("p7", true)
+		tp1("p8", true)
 		time.Sleep(40 * time.Millisecond)
 		c1 := atomic.LoadUint64(&ch.messageCount)
+		if nextFan <= 8 {
+			tp1(fmt.Sprintf("f%d", nextFan), c1 > c0) // did the pump take one more although Pause() had returned?
+		}
 		if c1 > c0 {
+			h.emit("tpause "+strings.Join(tpOps, " "), strings.Join(tpImpl, ""))
 			h.fail("topic-pause", "Topic.Pause() had returned (topic paused: flag set, pump busy with a backlog of 5 when it was issued) — yet %d more message(s) were handed to channel c afterwards (message_count %d -> %d of %d published; topic depth %d)",
 				c1-c0, c0, c1, total, tp.Depth())
 			h.aborted = true
@@ -395,11 +427,153 @@ func (h *vfE2H) doBusyPause() {
 		for i := 0; i < 8000 && atomic.LoadUint64(&ch.messageCount) < total; i++ {
 			time.Sleep(250 * time.Microsecond)
 		}
-		if got := atomic.LoadUint64(&ch.messageCount); got != total {
+		got := atomic.LoadUint64(&ch.messageCount)
+		tp1("S0", true)
+		tp1("A", true)
+		for ; nextFan <= 8; nextFan++ {
+			tp1(fmt.Sprintf("f%d", nextFan), got == total)
+		}
+		h.emit("tpause "+strings.Join(tpOps, " "), strings.Join(tpImpl, ""))
+		if got != total {
 			h.fail("settle-stall", "busypause: after UnPause() only %d of %d published messages reached channel c within 2 s (topic depth %d, paused=%v)",
 				got, total, tp.Depth(), tp.IsPaused())
 			h.aborted = true
 			return
+		}
+	}
+}
+
+// doEphTopic — C01, audit A5: `#ephemeral` topics (model Nsq.Model.TopicEph, theorems Nsq.Props.C01Eph). Per
+// mem-queue-size (2 and 0) a private NSQD with topic `vfe2_eph#ephemeral` and the durable control topic `vfe2_dur`,
+// one channel `c` each, both topics paused (Pause() returns after the pump has disarmed its queue cases: nothing
+// is taken out of the topic queues). Five publishes of 3 bytes to each with Topic.PutMessage, reading
+// len(memoryMsgChan) before and Depth() after each. Oracles: every publish is acknowledged (nil) and counted; the
+// ephemeral topic keeps a message iff its memory queue had room, and drops it otherwise (kept + dropped =
+// acknowledged); the durable topic keeps all; after UnPause() each channel receives exactly what its topic kept.
+// One `teph` line per topic: the publishes as a run of Nsq.Model.TopicEph.stepE (drv_e2), answers k(ept) / d(ropped)
+// per publish, then message_count, message_bytes and depth.
+func (h *vfE2H) doEphTopic() {
+	for _, memq := range []int64{2, 0} {
+		if h.aborted {
+			return
+		}
+		h.ephTopicRound(memq)
+	}
+}
+
+func (h *vfE2H) ephTopicRound(memq int64) {
+	dir, err := os.MkdirTemp(os.Getenv("VERIF_OUT"), "e2ephtopic-")
+	if err != nil {
+		panic(err)
+	}
+	defer os.RemoveAll(dir)
+	defer h.forgetBusy()
+	n := h.privateNSQD(dir, func(o *Options) { o.MemQueueSize = memq })
+	go n.Main()
+	defer n.Exit()
+	const npub = 5
+	body := []byte("eph")
+	type side struct {
+		eph         bool
+		tp          *Topic
+		ch          *Channel
+		letters     string
+		kept, acked int
+	}
+	sides := []*side{{eph: true, tp: n.GetTopic("vfe2_eph#ephemeral")}, {eph: false, tp: n.GetTopic("vfe2_dur")}}
+	for _, sd := range sides {
+		sd.ch = sd.tp.GetChannel("c")
+		sd.tp.Pause()
+		if !sd.tp.IsPaused() {
+			h.fail("sched", "ephtopic: Pause() returned but topic %s is not paused", sd.tp.name)
+			return
+		}
+		if sd.tp.ephemeral != sd.eph {
+			h.fail("eph-topic-drop", "ephtopic: NewTopic(%q) has ephemeral=%v", sd.tp.name, sd.tp.ephemeral)
+		}
+	}
+	h.count("sched:ephtopic")
+	for _, sd := range sides {
+		name := sd.tp.name
+		for i := 0; i < npub; i++ {
+			memBefore, depthBefore := len(sd.tp.memoryMsgChan), sd.tp.Depth()
+			room := int64(memBefore) < memq // (mem-queue-size 0, paused: nobody receives — no room)
+			err := sd.tp.PutMessage(NewMessage(sd.tp.GenerateID(), body))
+			if err != nil {
+				// the publisher of an ephemeral topic is answered OK even when the message is dropped
+				h.fail("pub", "ephtopic: publish %d to %s (mem-queue-size %d, %d in memory) failed: %v", i+1, name, memq, memBefore, err)
+				sd.letters += "E"
+				continue
+			}
+			sd.acked++
+			kept := sd.tp.Depth() == depthBefore+1
+			if kept {
+				sd.kept++
+				sd.letters += "k"
+			} else {
+				sd.letters += "d"
+			}
+			if sd.tp.Depth() != depthBefore && !kept {
+				h.fail("eph-topic-drop", "ephtopic: publish %d to %s changed the topic depth %d -> %d", i+1, name, depthBefore, sd.tp.Depth())
+			}
+			switch {
+			case !sd.eph && !kept:
+				h.fail("lost", "the DURABLE topic %s (mem-queue-size %d, %d in memory) acknowledged publish %d and did not keep it (depth stays %d)", name, memq, memBefore, i+1, depthBefore)
+			case sd.eph && room && !kept:
+				h.fail("eph-topic-drop", "the #ephemeral topic %s dropped publish %d although its memory queue had room (%d of %d)", name, i+1, memBefore, memq)
+			case sd.eph && !room && kept:
+				h.fail("eph-topic-drop", "the #ephemeral topic %s kept publish %d although its memory queue was full (%d of %d; depth %d -> %d, backend depth %d): an ephemeral topic has no backend queue", name, i+1, memBefore, memq, depthBefore, sd.tp.Depth(), sd.tp.backend.Depth())
+			}
+		}
+		mc, mb := atomic.LoadUint64(&sd.tp.messageCount), atomic.LoadUint64(&sd.tp.messageBytes)
+		e := 0
+		if sd.eph {
+			e = 1
+		}
+		h.emit(fmt.Sprintf("teph eph=%d cap=%d size=%d%s", e, memq, len(body), strings.Repeat(" p", npub)),
+			fmt.Sprintf("%s mc=%d mb=%d depth=%d", sd.letters, mc, mb, sd.tp.Depth()))
+		if mc != uint64(sd.acked) || mb != uint64(sd.acked*len(body)) {
+			h.fail("eph-topic-drop", "topic %s: %d publishes acknowledged (%d kept, %d dropped) but message_count=%d message_bytes=%d (a dropped message of an #ephemeral topic is acknowledged and counted)", name, sd.acked, sd.kept, sd.acked-sd.kept, mc, mb)
+		}
+		dropped := strings.Count(sd.letters, "d")
+		if sd.kept+dropped != sd.acked || int64(sd.kept) != sd.tp.Depth() {
+			h.fail("eph-topic-drop", "topic %s: kept %d + dropped %d != acknowledged %d, or depth %d != kept", name, sd.kept, dropped, sd.acked, sd.tp.Depth())
+		}
+		want := npub
+		if sd.eph {
+			want = int(memq)
+			if want > npub {
+				want = npub
+			}
+		}
+		if sd.acked == npub && sd.kept != want {
+			key := "eph-topic-drop"
+			if !sd.eph {
+				key = "lost"
+			}
+			h.fail(key, "topic %s with mem-queue-size %d kept %d of %d acknowledged publishes, expected %d (%s)", name, memq, sd.kept, npub, want, sd.letters)
+		}
+	}
+	// resume: each channel receives exactly what its topic kept (no consumer: message_count / depth)
+	for _, sd := range sides {
+		sd.tp.UnPause()
+	}
+	for _, sd := range sides {
+		for i := 0; i < 8000 && (atomic.LoadUint64(&sd.ch.messageCount) < uint64(sd.kept) || sd.tp.Depth() > 0); i++ {
+			time.Sleep(250 * time.Microsecond)
+		}
+	}
+	time.Sleep(30 * time.Millisecond)
+	for _, sd := range sides {
+		got, depth := atomic.LoadUint64(&sd.ch.messageCount), sd.ch.Depth()
+		if got == uint64(sd.kept) && depth == int64(sd.kept) && sd.tp.Depth() == 0 {
+			continue
+		}
+		switch {
+		case got < uint64(sd.kept) || depth < int64(got):
+			h.fail("lost", "ephtopic: after UnPause() channel c of %s has message_count %d, depth %d — its topic kept %d (topic depth now %d)", sd.tp.name, got, depth, sd.kept, sd.tp.Depth())
+		default:
+			h.fail("phantom", "ephtopic: after UnPause() channel c of %s has message_count %d, depth %d — its topic kept only %d", sd.tp.name, got, depth, sd.kept)
 		}
 	}
 }
